@@ -281,3 +281,56 @@ func (h *History) CheckC05() []Violation {
 	}
 	return out
 }
+
+// wedgeSites is the closed vocabulary used to name where a wedged run is stuck
+// (first match in this order wins).
+var wedgeSites = []struct{ needle, state, name string }{
+	{"pubNodeBase).InjectControlMessage", "", "stop-inject-control-message-vs-node-cleanup"},
+	{"parallelNodeCoordinator).Run", "[chan send", "parallel-coordinator-blocked-on-errs"},
+	{"OpenMessagesTracker).Wait", "", "open-messages-never-resolved"},
+	{"Persister).WaitPendingWrites", "", "persister-wait-pending-writes"},
+	{"Persister).triggerFlush", "", "persister-trigger-flush"},
+	{"Worker).acquireProcessingLock", "", "funnel-processing-lock"},
+	{"funnel.(*Worker).doTask", "", "funnel-do-task"},
+	{"Source).Teardown", "", "source-teardown"},
+	{"Destination).Teardown", "", "destination-teardown"},
+	{"StartWithBackoff", "", "start-with-backoff"},
+}
+
+// CheckWedge turns a bounded-quiescence failure (R3) into a C11 violation. The
+// caller must make sure the scenario contains no plugin that is scripted to hang.
+func CheckWedge(res *Result) []Violation {
+	if !res.Wedged {
+		return nil
+	}
+	site := "other"
+	blocks := strings.Split(res.Stacks, "\n\n")
+outer:
+	for _, s := range wedgeSites {
+		for _, b := range blocks {
+			if strings.Contains(b, s.needle) && (s.state == "" || strings.Contains(strings.SplitN(b, "\n", 2)[0], s.state)) {
+				site = s.name
+				break outer
+			}
+		}
+	}
+	return []Violation{{Prop: "C11", Key: "C11/wedge/" + res.Case.Engine + "/" + site, Index: len(res.Events),
+		Detail: "run never ends / control call never returns although every plugin call returned: " + res.WedgeInfo}}
+}
+
+// HasHold reports whether the script contains a plugin that never answers.
+func (c *Case) HasHold() bool {
+	for _, d := range c.Dests {
+		for _, o := range d.PerPiece {
+			if o == OutHold {
+				return true
+			}
+		}
+	}
+	for _, o := range c.DLQ.PerRecord {
+		if o == OutHold {
+			return true
+		}
+	}
+	return false
+}
